@@ -393,6 +393,7 @@ def run(tier, seed, build):
         e.update(body)
         meta[e["id"]] = (d, body.get("req", dict(q=body.get("q"))), label)
         events.append(e)
+        gc.freeze()      # recorded observations are permanent: keeps the package's gc.collect() calls cheap
 
     for d, r in pairs:
         try:
